@@ -148,6 +148,17 @@ def insSorted (x : String) : List String → List String
 
 def sortStrs (l : List String) : List String := l.foldr insSorted []
 
+def liveStr (cfg : Cfg) (h : HState) : String :=
+  let bs := h.live.map fun (id, _) => "B:" ++ id ++ "@trace"
+  let ss := match h.s.S with
+    | some t => match t.atGate cfg with | some g => ["S@" ++ g] | none => ["S@?"]
+    | none => []
+  let us := match h.s.U with
+    | some u => match u.atGate with | some g => ["U@" ++ g] | none => ["U@?"]
+    | none => []
+  let ws := if h.hold && !h.s.inflight.isEmpty then ["W@write"] else []
+  joinWith "," (sortStrs (bs ++ ss ++ us ++ ws))
+
 def render (cfg : Cfg) (h : HState) : String :=
   let bs := h.live.map fun (id, _) => "B:" ++ id ++ "@trace"
   let ss := match h.s.S with
@@ -164,12 +175,12 @@ def parseCfg (ws : List String) : Cfg :=
   { serverSide := b "ss", positioned := b "pos", batching := b "bat", rwq := b "rwq",
     offset0Checked := b "fix", serial := b "serial", pubSerial := true }
 
-def runLabels (cfg : Cfg) : HState → List String → Nat → Except Nat HState
-  | h, [], _ => .ok h
-  | h, l :: ls, i =>
+def runLabels (cfg : Cfg) : HState → List String → Nat → List String → Except Nat (HState × List String)
+  | h, [], _, tr => .ok (h, tr.reverse)
+  | h, l :: ls, i, tr =>
     match hstep cfg h l with
     | none => .error i
-    | some h' => runLabels cfg h' ls (i + 1)
+    | some h' => runLabels cfg h' ls (i + 1) (liveStr cfg h' :: tr)
 
 /-- candidate harness labels in a state (with repetition = weight) -/
 def candidates (h : HState) : List String :=
@@ -178,18 +189,18 @@ def candidates (h : HState) : List String :=
   ["S", "S", "S", "Uc", "Us", "B:p:" ++ n, "B:p:" ++ n, "B:h:" ++ n, "B:h:" ++ n, "B:j:" ++ n, "B:l:" ++ n,
    "WH", "WR", "WR", "T"] ++ liveLabs ++ liveLabs
 
-def genLabels (cfg : Cfg) : HState → List Nat → List String → HState × List String
-  | h, [], acc => (h, acc.reverse)
-  | h, r :: rs, acc =>
+def genLabels (cfg : Cfg) : HState → List Nat → List String → List String → HState × List String × List String
+  | h, [], acc, tr => (h, acc.reverse, tr.reverse)
+  | h, r :: rs, acc, tr =>
     let en := (candidates h).filterMap fun l => (hstep cfg h l).map fun h' => (l, h')
-    if en.isEmpty then (h, acc.reverse)
+    if en.isEmpty then (h, acc.reverse, tr.reverse)
     else
       match en[r % en.length]? with
-      | none => (h, acc.reverse)
+      | none => (h, acc.reverse, tr.reverse)
       | some (l, h') =>
         let h'' := if l.startsWith "B:" && (l.splitOn ":").getLast? == some (toString h.fresh)
           then { h' with fresh := h'.fresh + 1 } else h'
-        genLabels cfg h'' rs (l :: acc)
+        genLabels cfg h'' rs (l :: acc) (liveStr cfg h'' :: tr)
 
 def step (line : String) : String :=
   let ws := words line
@@ -198,13 +209,13 @@ def step (line : String) : String :=
   match headW with
   | "run" :: cfgW =>
     let cfg := parseCfg cfgW
-    match runLabels cfg {} tailW 0 with
-    | .ok h => render cfg h
+    match runLabels cfg {} tailW 0 [] with
+    | .ok (h, tr) => s!"{render cfg h} trail={joinWith "/" tr}"
     | .error i => s!"disabled@{i}"
   | "gen" :: cfgW =>
     let cfg := parseCfg cfgW
-    let (h, labs) := genLabels cfg {} (tailW.filterMap String.toNat?) []
-    s!"labels={joinWith "," labs} {render cfg h}"
+    let (h, labs, tr) := genLabels cfg {} (tailW.filterMap String.toNat?) [] []
+    s!"labels={joinWith "," labs} {render cfg h} trail={joinWith "/" tr}"
   | _ => "bad-op"
 
 def main : IO Unit := runPure step
